@@ -5,17 +5,23 @@ C12 proofs, part 2: the invariant and the generic way to re-establish it after a
 namespace TV.Proofs.ListenerLife
 open TV TV.ListenerLife TV.LifeLink
 
-/-- per-thread part of the invariant -/
+/-- per-thread part of the invariant.  A connection handed out during the phase is still in the table
+    unless an `acloser` has started to close it; an `acloser` past its first step has a connection to
+    close (the Accept it follows has returned one, and that never changes: `Stable`). -/
 def ThOk (a : Nat) (s : Sys) (th : Th) : Prop :=
   (th.pc = .parkedWait → s.sockClosed = false) ∧
   (th.pc = .atWait ∨ th.pc = .parkedWait → s.table = [] ∧ s.accepting = false ∧ s.arrPending = false) ∧
   (th.role = .lcloser → (th.pc = .start ∨ th.pc = .atLock ∨ th.pc = .atWait ∨ th.pc = .parkedWait ∨ th.pc = .done .ok)) ∧
   (th.role = .lcloser → th.pc ≠ .start → s.accepting = false) ∧
-  (∀ c, th.pc = .done (.conn c) → a ≤ c ∧ c < s.nextConn ∧ c ∈ s.table ∧ c ∉ s.acceptQ)
+  (∀ c, th.pc = .done (.conn c) → a ≤ c ∧ c < s.nextConn ∧ (c ∈ s.table ∨ tgtd s.ths c = true) ∧ c ∉ s.acceptQ) ∧
+  (∀ i, th.role = .acloser i → th.pc ≠ .start → ∃ c, accL s.ths i = some c)
 
+/-- `count`: the closers of connections accepted during the phase are counted thread-locally
+    (`astarted`); `count_taken` (they close pairwise different handed-out connections) turns this into
+    the statement about `openHeld`. -/
 structure Inv (a : Nat) (s : Sys) : Prop where
   wf : WfRoles a (s.ths.map (·.role))
-  count : s.wg = (if relL s.ths then 0 else 1) + s.acceptQ.length + openCnt a s.ths + (taken s.ths).length
+  count : s.wg + astarted s.ths = (if relL s.ths then 0 else 1) + s.acceptQ.length + openCnt a s.ths + (taken s.ths).length
   sock : s.sockClosed = true ↔ s.wg = 0
   rwg : s.sockClosed = true → s.readWG = 0
   qok : ∀ c ∈ s.acceptQ, a ≤ c ∧ c < s.nextConn ∧ c ∈ s.table
@@ -26,23 +32,26 @@ structure Inv (a : Nat) (s : Sys) : Prop where
   /-- once the listener's reference is dropped no arrival is in flight and nothing is queued -/
   rel : relL s.ths = true → s.arrPending = false ∧ s.acceptQ = []
   thr : ∀ th ∈ s.ths, ThOk a s th
+  /-- the connections handed out by the Accepts of the phase are pairwise different -/
+  tnd : (taken s.ths).Nodup
 
 /-- what the threads that do not move need from the change of the shared fields -/
 def Frame (a : Nat) (bw : Bool) (s s' : Sys) : Prop :=
   (bw = false → s'.sockClosed = true → s.sockClosed = true) ∧
   (s.table = [] → s.accepting = false → s.arrPending = false → s'.table = []) ∧
   (s.accepting = false → s'.accepting = false) ∧
-  (∀ c, a ≤ c → c < s.nextConn → c ∈ s.table → c ∉ s.acceptQ → c < s'.nextConn ∧ c ∈ s'.table ∧ c ∉ s'.acceptQ) ∧
+  (∀ c, a ≤ c → c < s.nextConn → c ∉ s.acceptQ →
+    c < s'.nextConn ∧ (c ∈ s.table → c ∈ s'.table ∨ tgtd s'.ths c = true) ∧ c ∉ s'.acceptQ) ∧
   (s.accepting = false → s.arrPending = false → s'.arrPending = false)
 
-theorem thOk_frame {a : Nat} {s s' : Sys} {bs bw : Bool} {x : Th} (h : ThOk a s x) (hf : Frame a bw s s') :
-    ThOk a s' (wk bs bw x) := by
+theorem thOk_frame {a : Nat} {s s' : Sys} {bs bw : Bool} {x : Th} (h : ThOk a s x) (hf : Frame a bw s s')
+    (hst : Stable s.ths s'.ths) : ThOk a s' (wk bs bw x) := by
   unfold ThOk at h ⊢
-  obtain ⟨h1, h2, h3, h4, h5⟩ := h
+  obtain ⟨h1, h2, h3, h4, h5, h6⟩ := h
   obtain ⟨f1, f2, f3, f4, f5⟩ := hf
   cases x with | mk r p =>
   simp only [wk_pc, wk_role] at *
-  refine ⟨?_, ?_, ?_, ?_, ?_⟩
+  refine ⟨?_, ?_, ?_, ?_, ?_, ?_⟩
   · intro hp
     rw [wkPc_parkedWait] at hp
     cases hsc : s'.sockClosed with
@@ -65,12 +74,20 @@ theorem thOk_frame {a : Nat} {s s' : Sys} {bs bw : Bool} {x : Th} (h : ThOk a s 
   · intro c hp
     rw [wkPc_conn] at hp
     obtain ⟨g1, g2, g3, g4⟩ := h5 c hp
-    exact ⟨g1, f4 c g1 g2 g3 g4⟩
+    obtain ⟨k1, k2, k3⟩ := f4 c g1 g2 g4
+    refine ⟨g1, k1, ?_, k3⟩
+    rcases g3 with g3 | g3
+    · exact k2 g3
+    · exact Or.inr (hst.2 c g3)
+  · intro i hr hp
+    rw [Ne, wkPc_start] at hp
+    obtain ⟨c, hc⟩ := h6 i hr hp
+    exact ⟨c, hst.1 i c hc⟩
 
 theorem wf_unique_c {a : Nat} {l1 l2 : List Th} {th : Th} {c : Nat}
     (hw : WfRoles a ((l1 ++ th :: l2).map (·.role))) (hr : th.role = .ccloser c) :
     c < a ∧ started l1 c = false ∧ started l2 c = false := by
-  obtain ⟨w1, _, w3⟩ := hw
+  obtain ⟨w1, _, w3, _⟩ := hw
   refine ⟨w1 c (by simp [← hr]), ?_, ?_⟩
   all_goals
     apply started_false_of_norole
@@ -105,6 +122,24 @@ theorem wf_unique_l {a : Nat} {l1 l2 : List Th} {th : Th}
     have := List.length_pos_of_mem hm
     omega
 
+theorem wf_unique_a {a : Nat} {l1 l2 : List Th} {th : Th} {i : Nat}
+    (hw : WfRoles a ((l1 ++ th :: l2).map (·.role))) (hr : th.role = .acloser i) :
+    (∀ x ∈ l1, x.role ≠ .acloser i) ∧ (∀ x ∈ l2, x.role ≠ .acloser i) := by
+  have w5 := hw.2.2.2.2 i
+  simp only [List.map_append, List.map_cons, List.filter_append, List.filter_cons, hr, decide_true, if_true,
+      List.length_append, List.length_cons] at w5
+  constructor
+  · intro x hx hxr
+    have hm : Role.acloser i ∈ (l1.map (·.role)).filter (· = .acloser i) :=
+      List.mem_filter.2 ⟨List.mem_map.2 ⟨x, hx, hxr⟩, by simp⟩
+    have := List.length_pos_of_mem hm
+    omega
+  · intro x hx hxr
+    have hm : Role.acloser i ∈ (l2.map (·.role)).filter (· = .acloser i) :=
+      List.mem_filter.2 ⟨List.mem_map.2 ⟨x, hx, hxr⟩, by simp⟩
+    have := List.length_pos_of_mem hm
+    omega
+
 /-- closers exist only for the connections accepted before the phase -/
 theorem started_lt {a : Nat} {l : List Th} {c : Nat} (hw : WfRoles a (l.map (·.role))) (h : started l c = true) : c < a := by
   obtain ⟨th, hm, hr, _⟩ := (started_true_iff l c).1 h
@@ -116,8 +151,9 @@ theorem started_lt {a : Nat} {l : List Th} {c : Nat} (hw : WfRoles a (l.map (·.
 theorem inv_mk {a : Nat} {s s' : Sys} {l1 l2 : List Th} {th th' : Th} {bs bw : Bool}
     (h : Inv a s) (hs : s.ths = l1 ++ th :: l2)
     (hths : s'.ths = l1.map (wk bs bw) ++ th' :: l2.map (wk bs bw))
-    (hrole : th'.role = th.role) (hfr : Frame a bw s s') (hth' : ThOk a s' th')
-    (count : s'.wg = (if relL s'.ths then 0 else 1) + s'.acceptQ.length + openCnt a s'.ths + (taken s'.ths).length)
+    (hrole : th'.role = th.role) (hacc : ∀ c, accOf th = some c → accOf th' = some c)
+    (hns : th.pc ≠ .start → th'.pc ≠ .start) (hfr : Frame a bw s s') (hth' : ThOk a s' th')
+    (count : s'.wg + astarted s'.ths = (if relL s'.ths then 0 else 1) + s'.acceptQ.length + openCnt a s'.ths + (taken s'.ths).length)
     (sock : s'.sockClosed = true ↔ s'.wg = 0)
     (rwg : s'.sockClosed = true → s'.readWG = 0)
     (qok : ∀ c ∈ s'.acceptQ, a ≤ c ∧ c < s'.nextConn ∧ c ∈ s'.table)
@@ -125,8 +161,11 @@ theorem inv_mk {a : Nat} {s s' : Sys} {l1 l2 : List Th} {th th' : Th} {bs bw : B
     (nge : a ≤ s'.nextConn)
     (acc : s'.accepting = false → lstarted s'.ths = true)
     (tbl : ∀ c, c < a → c ∉ s'.table → started s'.ths c = true)
-    (rel : relL s'.ths = true → s'.arrPending = false ∧ s'.acceptQ = []) : Inv a s' := by
-  refine ⟨?_, count, sock, rwg, qok, qnd, nge, acc, tbl, rel, ?_⟩
+    (rel : relL s'.ths = true → s'.arrPending = false ∧ s'.acceptQ = [])
+    (tnd : (taken s'.ths).Nodup) : Inv a s' := by
+  have hst : Stable s.ths s'.ths := by
+    rw [hs, hths]; exact stable_mk hrole hacc hns
+  refine ⟨?_, count, sock, rwg, qok, qnd, nge, acc, tbl, rel, ?_, tnd⟩
   · have := h.wf
     rw [hs] at this
     rw [hths, List.map_append, List.map_cons, roles_map_wk, roles_map_wk, hrole]
@@ -137,16 +176,17 @@ theorem inv_mk {a : Nat} {s s' : Sys} {l1 l2 : List Th} {th th' : Th} {bs bw : B
     intro x hx
     simp only [List.mem_append, List.mem_cons, List.mem_map] at hx
     rcases hx with ⟨y, hy, rfl⟩ | rfl | ⟨y, hy, rfl⟩
-    · exact thOk_frame (this y (by simp [hy])) hfr
+    · exact thOk_frame (this y (by simp [hy])) hfr hst
     · exact hth'
-    · exact thOk_frame (this y (by simp [hy])) hfr
+    · exact thOk_frame (this y (by simp [hy])) hfr hst
 
 /-- the same with nobody woken -/
 theorem inv_mk0 {a : Nat} {s s' : Sys} {l1 l2 : List Th} {th th' : Th}
     (h : Inv a s) (hs : s.ths = l1 ++ th :: l2)
     (hths : s'.ths = l1 ++ th' :: l2)
-    (hrole : th'.role = th.role) (hfr : Frame a false s s') (hth' : ThOk a s' th')
-    (count : s'.wg = (if relL s'.ths then 0 else 1) + s'.acceptQ.length + openCnt a s'.ths + (taken s'.ths).length)
+    (hrole : th'.role = th.role) (hacc : ∀ c, accOf th = some c → accOf th' = some c)
+    (hns : th.pc ≠ .start → th'.pc ≠ .start) (hfr : Frame a false s s') (hth' : ThOk a s' th')
+    (count : s'.wg + astarted s'.ths = (if relL s'.ths then 0 else 1) + s'.acceptQ.length + openCnt a s'.ths + (taken s'.ths).length)
     (sock : s'.sockClosed = true ↔ s'.wg = 0)
     (rwg : s'.sockClosed = true → s'.readWG = 0)
     (qok : ∀ c ∈ s'.acceptQ, a ≤ c ∧ c < s'.nextConn ∧ c ∈ s'.table)
@@ -154,19 +194,59 @@ theorem inv_mk0 {a : Nat} {s s' : Sys} {l1 l2 : List Th} {th th' : Th}
     (nge : a ≤ s'.nextConn)
     (acc : s'.accepting = false → lstarted s'.ths = true)
     (tbl : ∀ c, c < a → c ∉ s'.table → started s'.ths c = true)
-    (rel : relL s'.ths = true → s'.arrPending = false ∧ s'.acceptQ = []) : Inv a s' :=
-  inv_mk (bs := false) (bw := false) h hs (by rw [map_wk_ff, map_wk_ff]; exact hths) hrole hfr hth' count sock rwg qok qnd nge acc tbl rel
+    (rel : relL s'.ths = true → s'.arrPending = false ∧ s'.acceptQ = [])
+    (tnd : (taken s'.ths).Nodup) : Inv a s' :=
+  inv_mk (bs := false) (bw := false) h hs (by rw [map_wk_ff, map_wk_ff]; exact hths) hrole hacc hns hfr hth' count sock rwg qok qnd nge acc tbl rel tnd
 
 theorem frame_refl (a : Nat) (bw : Bool) (s : Sys) : Frame a bw s s :=
-  ⟨fun _ h => h, fun h _ _ => h, id, fun _ _ h2 h3 h4 => ⟨h2, h3, h4⟩, fun _ h => h⟩
+  ⟨fun _ h => h, fun h _ _ => h, id, fun _ _ h2 h4 => ⟨h2, Or.inl, h4⟩, fun _ h => h⟩
+
+/-- only the thread list changes -/
+theorem frame_ths (a : Nat) (bw : Bool) (s : Sys) (ths' : List Th) : Frame a bw s { s with ths := ths' } :=
+  ⟨fun _ h => h, fun h _ _ => h, id, fun _ _ h2 h4 => ⟨h2, Or.inl, h4⟩, fun _ h => h⟩
 
 /-- a change of the shared fields only -/
 theorem thr_frame {a : Nat} {s s' : Sys} (h : ∀ th ∈ s.ths, ThOk a s th) (hf : Frame a false s s') (hths : s'.ths = s.ths) :
     ∀ th ∈ s'.ths, ThOk a s' th := by
   intro th hm
   rw [hths] at hm
-  have := thOk_frame (bs := false) (bw := false) (h th hm) hf
+  have := thOk_frame (bs := false) (bw := false) (h th hm) hf (by rw [hths]; exact stable_refl _)
   rwa [wk_ff] at this
+
+theorem Inv.n2 {a : Nat} {s : Sys} (h : Inv a s) :
+    ∀ th ∈ s.ths, ∀ i, th.role = .acloser i → th.pc ≠ .start → ∃ c, accL s.ths i = some c :=
+  fun th hm => (h.thr th hm).2.2.2.2.2
+
+theorem Inv.wf5 {a : Nat} {s : Sys} (h : Inv a s) : ∀ i, ((s.ths.map (·.role)).filter (· = .acloser i)).length ≤ 1 :=
+  h.wf.2.2.2.2
+
+/-- every started `acloser` closes its own handed-out connection -/
+theorem astarted_le {a : Nat} {s : Sys} (h : Inv a s) : astarted s.ths ≤ (taken s.ths).length := by
+  have := count_taken h.wf5 h.tnd h.n2
+  omega
+
+/-- an `acloser` that can start: one more handed-out connection than started `acloser`s -/
+theorem astarted_lt {a : Nat} {s : Sys} {l1 l2 : List Th} {i c0 : Nat} (h : Inv a s)
+    (hs : s.ths = l1 ++ ⟨.acloser i, .start⟩ :: l2) (hacc : accL s.ths i = some c0) :
+    astarted s.ths + 1 ≤ (taken s.ths).length := by
+  have hw := h.wf5; have htnd := h.tnd; have hn2 := h.n2
+  rw [hs] at hw htnd hn2 hacc ⊢
+  have hL : ∀ j, accL (l1 ++ ⟨.acloser i, .atLock⟩ :: l2) j = accL (l1 ++ ⟨.acloser i, .start⟩ :: l2) j :=
+    fun j => accL_congr (by simp [accOf]) j
+  have := count_taken (ths := l1 ++ ⟨.acloser i, .atLock⟩ :: l2) (by simpa using hw)
+    (by simpa [taken_append, taken_cons, takenOf] using htnd)
+    (by
+      intro th hm j hr hp
+      rw [hL]
+      simp only [List.mem_append, List.mem_cons] at hm
+      rcases hm with hm | rfl | hm
+      · exact hn2 th (by simp [hm]) j hr hp
+      · simp only [Role.acloser.injEq] at hr
+        subst hr
+        exact ⟨c0, hacc⟩
+      · exact hn2 th (by simp [hm]) j hr hp)
+  simp [astarted_append, astarted_cons, taken_append, taken_cons, takenOf, isAcl] at this ⊢
+  omega
 
 /-- while an arrival is in flight the listener still holds its reference, so the socket is open -/
 theorem relL_of_pend {a : Nat} {s : Sys} (h : Inv a s) (hp : s.arrPending = true) : relL s.ths = false := by
@@ -180,6 +260,7 @@ theorem wg_pos_of_pend {a : Nat} {s : Sys} (h : Inv a s) (hp : s.arrPending = tr
   have := h.count
   rw [relL_of_pend h hp] at this
   simp at this
+  have := astarted_le h
   omega
 
 theorem sock_of_pend {a : Nat} {s : Sys} (h : Inv a s) (hp : s.arrPending = true) : s.sockClosed = false := by
